@@ -162,10 +162,8 @@ theorem limitsValidStrict_eq_false_iff (ex cl : Rat × Rat) :
 
 theorem reportsError_of_calc (carrier : Carrier) (conv : Conv) (dt : DataType) (ex cl : Rat × Rat)
     (h : calcLimits conv dt = some cl) :
-    reportsError carrier conv dt ex =
-      some (!(if carrier = .typedefMeasurement then limitsValidStrict ex cl else limitsValid ex cl)) := by
+    reportsError carrier conv dt ex = some (!limitsValid ex cl) := by
   unfold reportsError
   rw [h]
-  cases carrier <;> simp
 
 end A2l.Lim
